@@ -289,6 +289,41 @@ pub fn run(tier: Tier) -> i32 {
                 }),
             }
         }
+        // string literals ending in an escaped backslash / containing quotes, in metadata values and in
+        // the expression, followed by comment lines (comment extraction must not be confused)
+        for (text, comments) in [
+            ("// n\n@p: \"C:\\\\temp\\\\\";\n// d1\n// d2\nx", vec!["n", "d1", "d2"]),
+            ("@p: \"a\\\\\";\n// late name\nx == \"q\\\"\"\n// desc", vec!["late name", "desc"]),
+            ("// n\nx == \"C:\\\\\"\n// d1\n// d2", vec!["n", "d1", "d2"]),
+            ("// n\n@q: \"say \\\"hi\\\"\";\n@r: \"// not a comment\";\n// d\n\"//\" + \"\\\\\"\n// e", vec!["n", "d", "e"]),
+        ] {
+            acc0.count("executions", 1);
+            let (exp, exp_expr) = expected_with_comments(&g, &comments, text);
+            match (&exp, impl_parse_rule(text)) {
+                (Expected::Rule { name, description, metas, .. }, ImplParse::Ok(r)) => {
+                    let mut got_m = r.metadata.clone();
+                    if !metas.contains_key("description") {
+                        got_m.remove("description");
+                    }
+                    if r.name != *name || r.description != *description || got_m != *metas || Some(&r.expr) != exp_expr.as_ref() {
+                        acc0.violation(Violation {
+                            sig: format!("escaped-backslash-text/{}", text.len()),
+                            what: format!("Rule::parse({text:?}): name {:?} / description {:?} / metadata {}, expected {name:?} / {description:?} / {}", r.name, r.description, show_m(&got_m), show_m(metas)),
+                            case: json!({"kind": "raw", "text": text}),
+                            size: text.len(),
+                        });
+                    }
+                    acc0.outcome("escaped-backslash-text:ok");
+                }
+                (Expected::Rule { .. }, other) => acc0.violation(Violation {
+                    sig: format!("escaped-backslash-text/{}", text.len()),
+                    what: format!("Rule::parse({text:?}) did not produce a rule: {}", short(&other)),
+                    case: json!({"kind": "raw", "text": text}),
+                    size: text.len(),
+                }),
+                (other, _) => acc0.machinery(format!("reference does not accept the hand-written rule text {text:?}: {other:?}")),
+            }
+        }
         // many metadata items with repeated keys in scrambled order: the last written value wins
         for n in [8usize, 21, 33, 65, 130] {
             let keys = n / 2 + 1;
